@@ -321,5 +321,82 @@ func judgeReplays(c *Ctx, kind string, seed uint64, w *world.World, rounds []str
 			}
 		}
 	}
+	judgeFileBoard(c, kind, seed, w, rounds, log, r)
 	c.Sample(map[string]interface{}{"kind": kind, "log_len": len(log), "rounds": len(rounds), "nodes": len(w.Nodes)})
+}
+
+// judgeFileBoard (e): the recorded log, with repeated lines added (the same line - same id - a second
+// time, before or after its own place: a board file somebody appended to twice), is written to a real
+// board file and consumed through storage/file_storage by fresh nodes under different poll splits.
+// The replays must agree with each other.
+func judgeFileBoard(c *Ctx, kind string, seed uint64, w *world.World, rounds []string, log []storage.Message, r *sched.Rng) {
+	if len(log) < 4 {
+		return
+	}
+	salted := append([]storage.Message{}, log...)
+	dups := 0
+	for k := 0; k < 6; k++ {
+		i := r.Intn(len(salted))
+		m := salted[i]
+		if exempt(m.Event) {
+			continue
+		}
+		var j int
+		if k%2 == 0 {
+			j = r.Intn(i + 1) // an early copy: arrives before the round is ready for it
+		} else {
+			j = i + 1 + r.Intn(len(salted)-i) // a late copy
+		}
+		salted = append(salted[:j], append([]storage.Message{m}, salted[j:]...)...)
+		dups++
+	}
+	fb, err := world.NewFileBoard(salted)
+	if err != nil {
+		c.Inconclusive("file board: %v", err)
+		return
+	}
+	defer fb.Remove()
+	wit := func(extra string) map[string]interface{} {
+		return map[string]interface{}{"kind": kind, "case_seed": seed, "log_len": len(salted), "repeated_lines": dups, "comparison": extra, "board": "storage/file_storage"}
+	}
+	for _, live := range w.Nodes {
+		var ref nodeView
+		for si, sp := range []string{"one-per-poll", "all-in-one", "random", "random", "random"} {
+			rn := &world.Node{Idx: live.Idx, Name: live.Name, KeyPair: live.KeyPair, Keys: live.Keys, ResultCache: map[string][]byte{}}
+			rn.Mem = world.NewMemState(world.Topic)
+			if err := rn.WireHot(rn.Mem, fb); err != nil {
+				c.Inconclusive("replay node on file board: %v", err)
+				return
+			}
+			guard := 0
+			for int(rn.Offset()) < len(salted) && guard < 4*len(salted) {
+				guard++
+				upto := len(salted)
+				switch sp {
+				case "one-per-poll":
+					upto = int(rn.Offset()) + 1
+				case "random":
+					upto = int(rn.Offset()) + 1 + r.Intn(len(salted)-int(rn.Offset()))
+				}
+				if _, err := rn.PollStep(upto); err != nil {
+					break
+				}
+			}
+			c.Eval(1)
+			c.Add("file_board_replays", 1)
+			c.Distinct(fmt.Sprintf("%s|file-board|%s|%d|%s", kind, live.Name, si, sp))
+			v := viewOf(rn, rounds, oracle.ProjOpts{})
+			if int(rn.Offset()) < len(salted) {
+				c.Violate("C08/file-board-replay-does-not-advance", fmt.Sprintf("%s (%s) stays at offset %d of %d", live.Name, sp, rn.Offset(), len(salted)), wit("file-board:"+sp))
+				continue
+			}
+			if si == 0 {
+				ref = v
+				continue
+			}
+			if d := diffViews(ref, v, true); d != "" {
+				c.Violate("C08/file-board-replays-differ-by-poll-split", fmt.Sprintf("%s: one message per poll vs %s over the same board file (%d lines, %d of them repeated): %s", live.Name, sp, len(salted), dups, d), wit("file-board:"+sp))
+			}
+		}
+	}
 }
